@@ -280,8 +280,10 @@ def build_scene(rec):
     s.world = World()
     s.mid = Node(parent=s.world, transform=mk_tf(rec["mid"]))
     s.plasma = build_plasma(rec["plasma"], s.world, s.mid)
-    s.beam = build_beam(rec["beam"], s.world, s.mid, s.plasma) if "beam" in rec else None
-    s.laser = build_laser(rec["laser"], s.world, s.mid, s.plasma) if "laser" in rec else None
+    # a second, different plasma the beam / laser can be re-attached to (never mutated itself)
+    s.plasma_b = build_plasma(rec["plasma_b"], s.world, s.mid) if "plasma_b" in rec else None
+    s.beam = build_beam(rec["beam"], s.world, s.mid, s.plasma_b if rec["beam"].get("pl") == "b" else s.plasma) if "beam" in rec else None
+    s.laser = build_laser(rec["laser"], s.world, s.mid, s.plasma_b if rec["laser"].get("pl") == "b" else s.plasma) if "laser" in rec else None
     return s
 
 
@@ -565,7 +567,14 @@ def beam_params(draw):
     for need in (1, 4, 8):          # D+, C6+, Ne10+
         if need not in have:
             p["species"].append(draw(_species(need)))
-    return {"mid": draw(_tf()), "plasma": p, "beam": _resolve_cfg(draw(beam_cfg()))}
+    pb = draw(plasma_cfg(full=False))
+    have = {s["i"] for s in pb["species"]}
+    for need in (1, 4, 8):
+        if need not in have:
+            pb["species"].append(draw(_species(need)))
+    b = _resolve_cfg(draw(beam_cfg()))
+    b["pl"] = draw(st.sampled_from(["a", "a", "b"]))
+    return {"mid": draw(_tf()), "plasma": p, "plasma_b": pb, "beam": b}
 
 
 class BeamScene(SceneBase):
@@ -615,9 +624,11 @@ class BeamScene(SceneBase):
     def do_b_length(self, v):
         self._num("length", "length", v)
 
-    def do_b_plasma(self, a):
-        self._b().plasma = self.live.plasma          # re-assignment of the (same) plasma reference
-        self._mut("b_plasma")
+    def do_b_plasma(self, which):
+        # attach the beam to the other plasma object (or re-assign the same one)
+        self.rec["beam"]["pl"] = which
+        self._b().plasma = self.live.plasma_b if which == "b" else self.live.plasma
+        self._mut("b_plasma:" + which)
 
     def do_b_ad(self, tag):
         self.rec["beam"]["ad"] = tag
@@ -712,7 +723,7 @@ class BeamScene(SceneBase):
         "b_sigma": lambda: st.sampled_from([0.04, 0.08, 0.15]),
         "b_div": lambda: st.tuples(st.sampled_from([0.0, 0.7, 2.5]), st.sampled_from([0.0, 1.0, 4.0])),
         "b_length": lambda: st.sampled_from([1.0, 2.0, 3.4]),
-        "b_plasma": lambda: st.just(None),
+        "b_plasma": lambda: st.sampled_from(["a", "b"]),
         "b_ad": lambda: st.sampled_from(["A", "B"]),
         "b_integrator": lambda: st.tuples(st.sampled_from(["swap", "inplace"]), _step),
         "b_tf": lambda: st.tuples(st.sampled_from([0.0, 0.05, -0.1]), st.sampled_from([0.0, 4.0, -7.0])),
@@ -765,7 +776,9 @@ def laser_cfg(draw):
 
 @st.composite
 def laser_params(draw):
-    return {"mid": draw(_tf()), "plasma": draw(plasma_cfg(full=False)), "laser": draw(laser_cfg())}
+    lz = draw(laser_cfg())
+    lz["pl"] = draw(st.sampled_from(["a", "a", "b"]))
+    return {"mid": draw(_tf()), "plasma": draw(plasma_cfg(full=False)), "plasma_b": draw(plasma_cfg(full=False)), "laser": lz}
 
 
 _PROFILE_SETTERS = {
@@ -852,9 +865,10 @@ class LaserScene(SceneBase):
             self._l().integrator.step = step
         self._mut("l_integrator:" + mode)
 
-    def do_l_plasma(self, a):
-        self._l().plasma = self.live.plasma
-        self._mut("l_plasma")
+    def do_l_plasma(self, which):
+        self.rec["laser"]["pl"] = which
+        self._l().plasma = self.live.plasma_b if which == "b" else self.live.plasma
+        self._mut("l_plasma:" + which)
 
     def pre_l_models(self):
         return True
@@ -888,7 +902,7 @@ class LaserScene(SceneBase):
         "l_spectrum_set": lambda: st.tuples(st.sampled_from(sorted(_SPECTRUM_SETTERS)), st.integers(0, 5)),
         "l_importance": lambda: st.sampled_from([1.0, 3.0, 0.5]),
         "l_integrator": lambda: st.tuples(st.sampled_from(["swap", "inplace"]), st.sampled_from([0.0078125, 0.015625, 0.03125])),
-        "l_plasma": lambda: st.just(None),
+        "l_plasma": lambda: st.sampled_from(["a", "b"]),
         "l_models": lambda: st.sampled_from([0, 1, 1, 2]),
         "l_tf": lambda: st.tuples(st.sampled_from([0.0, 0.01, -0.02]), st.sampled_from([0.0, 1.0, -2.0])),
         "l_parent": lambda: st.sampled_from(["world", "mid"]),
